@@ -9,13 +9,15 @@ Local Open Scope Z_scope.
 (* a tile address of the grid: limit_tile accepts it *)
 Definition valid_coord (g : grid) (c : coord) : Prop := let '(x, y, l) := c in limit_tile g x y l = Some c.
 
-(* TMS is the only service that numbers the levels of a global profile from the second internal level *)
-Definition svc_profiles (s : svc) : bool := match s with TMS => true | _ => false end.
+(* how the service reads the public level: TMS numbers the levels of a global profile from the second internal
+   level; WMTS addresses every level of the grid; TMS, /tiles, KML see every second level of a sqrt2 grid *)
+Definition svc_profiles (s : svc) : level_mode :=
+  match s with TMS => mode_tms | Tiles | KML => mode_plain | _ => mode_wmts end.
 Definition is_fi (s : svc) : bool := match s with WmtsKvpFI | WmtsRestFI => true | _ => false end.
 Definition is_wmts (s : svc) : bool := match s with TMS | Tiles | KML => false | _ => true end.
 
 (* the public address (x, y, z) lies in the matrix the service advertises for the layer *)
-Definition in_matrix (ly : layer) (use_profiles : bool) (x y z : Z) : Prop :=
+Definition in_matrix (ly : layer) (use_profiles : level_mode) (x y z : Z) : Prop :=
   0 <= z /\ valid_coord (lg ly) (x, y, internal_level ly use_profiles z).
 
 (* origin and dimensions a service hands to TileLayer *)
@@ -143,19 +145,19 @@ Qed.
 Lemma featureinfo_refused_free ly o q x y z e :
   fst (featureinfo ly o q x y z) = Err e -> snd (featureinfo ly o q x y z) = [].
 Proof.
-  unfold featureinfo. destruct (request_tile_coord ly false o x y z) as [[[x' y'] l]|]; [|reflexivity].
+  unfold featureinfo. destruct (request_tile_coord ly mode_wmts o x y z) as [[[x' y'] l]|]; [|reflexivity].
   destruct (negb (dimensions_ok ly (rdims q))); [reflexivity|].
   destruct (negb (lqueryable ly)); [reflexivity|]. cbn [fst]. discriminate.
 Qed.
 
 Lemma featureinfo_outside ly o q x y z :
-  ~ in_matrix ly false x y z -> featureinfo ly o q x y z = (Err OutOfRange, []).
+  ~ in_matrix ly mode_wmts x y z -> featureinfo ly o q x y z = (Err OutOfRange, []).
 Proof. intros H. unfold featureinfo. rewrite (request_none _ _ o _ _ _ H). reflexivity. Qed.
 
 Lemma featureinfo_invalid_dimension ly o q x y z :
   dimensions_ok ly (rdims q) = false -> exists e, featureinfo ly o q x y z = (Err e, []).
 Proof.
-  intros H. unfold featureinfo. destruct (request_tile_coord ly false o x y z) as [[[x' y'] l]|]; [|eauto].
+  intros H. unfold featureinfo. destruct (request_tile_coord ly mode_wmts o x y z) as [[[x' y'] l]|]; [|eauto].
   rewrite H. cbn [negb]. eauto.
 Qed.
 
@@ -311,11 +313,11 @@ Qed.
 Lemma featureinfo_inside ly o q x y z e :
   In e (snd (featureinfo ly o q x y z)) -> effect_inside ly e.
 Proof.
-  unfold featureinfo. destruct (request_tile_coord ly false o x y z) as [[[x' y'] l]|] eqn:E; [|intros []].
+  unfold featureinfo. destruct (request_tile_coord ly mode_wmts o x y z) as [[[x' y'] l]|] eqn:E; [|intros []].
   destruct (negb (dimensions_ok ly (rdims q))); [intros []|].
   destruct (negb (lqueryable ly)); [intros []|]. cbn [snd]. intros [<-|[]].
   pose proof (request_some_inv _ _ _ _ _ _ _ E) as Him.
-  destruct (request_some ly false o x y z Him) as (c2 & E2 & Hv).
+  destruct (request_some ly mode_wmts o x y z Him) as (c2 & E2 & Hv).
   exists x', y', l. split; [|reflexivity]. assert (c2 = (x', y', l)) by congruence. subst c2. exact Hv.
 Qed.
 
@@ -480,7 +482,7 @@ Example ex_boundary_accept :
 Proof. vm_compute. reflexivity. Qed.
 Example ex_boundary_refuse : serve_tile ex_layer [] (ex_req TMS 7 4 2) = (Err OutOfRange, []).
 Proof. vm_compute. reflexivity. Qed.
-Example ex_in_matrix : in_matrix ex_layer true 7 3 2 /\ ~ in_matrix ex_layer true 7 4 2 /\ ~ in_matrix ex_layer true 0 0 3.
+Example ex_in_matrix : in_matrix ex_layer mode_tms 7 3 2 /\ ~ in_matrix ex_layer mode_tms 7 4 2 /\ ~ in_matrix ex_layer mode_tms 0 0 3.
 Proof.
   unfold in_matrix. repeat split; try lia; try (vm_compute; reflexivity);
     intros [_ H]; vm_compute in H; discriminate.
@@ -501,6 +503,27 @@ Proof. vm_compute. repeat split; reflexivity. Qed.
 (* non-numeric level *)
 Example ex_nonnumeric : serve_tile ex_layer [] (mkReq WmtsKvp (Some 0) (Some 0) None (Some 1) None [] true true true 0 0) = (Err Internal, []).
 Proof. vm_compute. reflexivity. Qed.
+
+(* a grid whose levels shrink by sqrt2 (every second level hidden from TMS / KML): WMTS TileMatrix 3 is level 3 of
+   the grid (4 x 2 tiles: column 3 is the last one), TMS level 1 is level 2 (3 x 2 tiles), TMS level 2 does not exist *)
+Definition ex_sqrt2_grid : grid := mkGrid 0 0 5120 2560 64 64 [40; 28; 20; 14] true 23 20 4 1.
+Definition ex_sqrt2_layer : layer := mkLayer ex_sqrt2_grid 1 [] 1 1 false true true None.
+Example ex_sqrt2_levels :
+  grid_sizes ex_sqrt2_grid = [(2, 1); (3, 2); (4, 2); (6, 3)] /\
+  serve_tile ex_sqrt2_layer [] (ex_req WmtsRest 5 2 3) =
+    (Ok, [ERead (5, 2, 3); EProbe (5, 2, 3); EProbe (5, 2, 3); EUp (4480, -128, 5376, 768) 64 64; EStore (5, 2, 3)]) /\
+  serve_tile ex_sqrt2_layer [] (ex_req WmtsKvp 6 2 3) = (Err OutOfRange, []) /\
+  serve_tile ex_sqrt2_layer [] (ex_req WmtsKvpFI 2 1 1) = (Ok, [EInfo (3584, -1024, 5376, 768) 3 4]) /\
+  fst (serve_tile ex_sqrt2_layer [] (ex_req TMS 3 1 1)) = Ok /\
+  serve_tile ex_sqrt2_layer [] (ex_req TMS 4 1 1) = (Err OutOfRange, []) /\
+  serve_tile ex_sqrt2_layer [] (ex_req KML 0 0 2) = (Err OutOfRange, []).
+Proof. vm_compute. repeat split; reflexivity. Qed.
+Example ex_sqrt2_matrix : in_matrix ex_sqrt2_layer mode_wmts 5 2 3 /\ ~ in_matrix ex_sqrt2_layer mode_plain 0 0 2.
+Proof.
+  split.
+  - split; [lia|vm_compute; reflexivity].
+  - intros [_ H]. vm_compute in H. discriminate.
+Qed.
 
 (* map requests at level 2 (res 10): 2 x 2 tiles = the tile limit 4 -> refused; 3 tiles -> served *)
 Definition ex_map4 : mreq := mkMap (0, 0, 1280, 1280) 128 128 1 false.
